@@ -626,9 +626,11 @@ class DimEval:
     """usize / bool expressions over `X.dimensions`, `X.dimensions.len()` and Boolean flags, for operands of rank >= 2:
     values ('int', n) | ('dimR', X, k) = X.dimensions[len - k] | ('len', X) | ('bool', b) | ('unk', why)"""
 
-    def __init__(self, facts, lets, flags, names):
+    def __init__(self, facts, lets, flags, names, ranks=None, eq=None):
         self.facts, self.lets, self.flags, self.names = facts, lets, flags, names
         self.busy = set()
+        self.ranks = ranks          # {'A': n, 'B': m}: rank comparisons are decided for these ranks (any rank >= 1)
+        self.eq = eq                # callable(l, r) -> bool | None: the truth assumed for an equality between two dimensions
 
     def arr(self, e):
         v = F.var_of(e)
@@ -704,6 +706,23 @@ class DimEval:
         if k == "Binary":
             l, r = self.ev(e["l"], depth + 1), self.ev(e["r"], depth + 1)
             op = e["op"]
+            if self.ranks is not None:
+                def num(x):
+                    if x[0] == "int":
+                        return x[1]
+                    if x[0] == "len" and x[1] in self.ranks:
+                        return self.ranks[x[1]]
+                    return None
+                ln, rn = num(l), num(r)
+                if ln is not None and rn is not None and op in ("Lt", "Le", "Gt", "Ge", "Eq", "Ne") and (l[0] == "len" or r[0] == "len"):
+                    return ("bool", {"Lt": ln < rn, "Le": ln <= rn, "Gt": ln > rn, "Ge": ln >= rn, "Eq": ln == rn, "Ne": ln != rn}[op])
+                if l[0] == "len" and r[0] == "int" and op == "Sub":
+                    return ("lenminus", l[1], r[1]) if r[1] <= self.ranks.get(l[1], 0) else ("unk", "index before the first dimension")
+                if op in ("Eq", "Ne") and l[0] == "dimR" and r[0] == "dimR" and self.eq is not None:
+                    t = self.eq(l, r)
+                    if t is not None:
+                        return ("bool", t if op == "Eq" else not t)
+                return ("unk", "binary %s" % op)
             if l[0] == "len" and r[0] == "int":
                 # operands of rank >= 2 (the generic case the formula is stated for)
                 if op == "Lt":
@@ -829,6 +848,49 @@ def r38_matmul_shapes(facts):
             else:
                 c.bad(inst, F.loc(b, found[2]), "the compatibility assertion compares %s.dimensions[len - %d] with %s.dimensions[len - %d]: not the inner dimensions of op(A) and op(B)"
                       % (found[0][1], found[0][2], found[1][1], found[1][2]))
+            # ... and it is reached, and not escaped, for every pair of ranks at which both inner dimensions exist
+            ka, kb = (2 if ta else 1), (1 if tb else 2)
+            asserts = [(n, ctx) for n, ctx in F.walk_ctx(facts.root(b)) if n.get("k") == "If" and n.get("else") is None and _panics(n["then"])]
+            inst = "%s:refuses-every-rank" % tag
+            passed, undecided = [], None
+            if found is not True:
+                c.unk(inst, where0, "the compatibility assertion is not in this body in a recognised form (moved into a helper?): its reach is not judged")
+                continue
+            for ra, rb in itertools.product((1, 2, 3, 4), repeat=2):
+                if ra < ka or rb < kb:
+                    continue        # one operand has no such dimension: the listed rank-1 forms, nothing to compare
+                want_pair = {("dimR", "A", ka), ("dimR", "B", kb)}
+                de2 = DimEval(facts, lets, {flagv["A"]: ta, flagv["B"]: tb}, names, ranks={"A": ra, "B": rb},
+                              eq=lambda l, r: False if {l, r} == want_pair else None)
+                refused = False
+                for n, ctx in asserts:
+                    vals = []
+                    for cond, truth in F.path_facts(ctx):
+                        v = de2.ev(cond)
+                        vals.append(None if v[0] != "bool" else (v[1] == truth))
+                    if any(v is False for v in vals):
+                        continue
+                    cv = de2.ev(n["cond"])
+                    if cv[0] == "bool" and not cv[1]:
+                        continue
+                    if cv[0] != "bool" or any(v is None for v in vals):
+                        # an assertion this evaluation cannot decide: only matters if no other one refuses
+                        if any(x.get("k") == "Binary" and x.get("op") in ("Eq", "Ne") for x in walk(n["cond"])) and \
+                                any(de2.ev(x["l"])[0] == "dimR" for x in walk(n["cond"]) if x.get("k") == "Binary" and x.get("op") in ("Eq", "Ne")):
+                            undecided = undecided or (ra, rb, cv[1] if cv[0] != "bool" else "path condition outside the evaluator")
+                        continue
+                    refused = True
+                    break
+                if not refused:
+                    passed.append((ra, rb))
+            if undecided is not None and passed:
+                c.unk(inst, where0, "whether mismatching inner dimensions are refused at ranks %s is outside the evaluator (%s)" % (undecided[:2], undecided[2]))
+            elif passed:
+                c.bad(inst, where0, "A of rank %d and B of rank %d (%s) both have an inner dimension, A.dimensions[len - %d] and B.dimensions[len - %d], yet no assertion "
+                      "refuses them when these differ: the product of incompatible operands is computed instead of refused%s"
+                      % (passed[0][0], passed[0][1], "ta=%s, tb=%s" % (ta, tb), ka, kb, "" if len(passed) == 1 else " (also ranks %s)" % ", ".join("%dx%d" % p for p in passed[1:4])))
+            else:
+                c.ok(inst, where0, "for ranks 1..4 x 1..4 with both inner dimensions present, a mismatch reaches a failing assertion")
     return c
 
 
